@@ -90,6 +90,12 @@ def add_code(s: Stream, code, label, errors, dtype, tag):
         # compared on the implementation side against the single-error path, whose rows the model checks above
         s.add('b2i 1', '1' if eff == single else f'stack-mismatch {eff[:80]} vs {single[:80]}',
               {'code': label, 'what': 'get_effective_error on a stack vs row by row'}, nontrivial=False, tag='stacked')
+        # ... and against the model: the 2-D path of get_effective_error / code.logical_errors row by row
+        s.add(f'effstack {dt} $LX $LZ {stack([list(e) for e in errors[:50]])}', eff,
+              {'code': label, 'what': 'get_effective_error on a stack vs the model'}, tag='stacked-model')
+        eff2 = guarded(lambda: stack([[int(x) for x in r] for r in np.asarray(code.logical_errors(E)).reshape(len(E), -1)]))
+        s.add(f'effstack {dt} $LX $LZ {stack([list(e) for e in errors[:50]])}', eff2,
+              {'code': label, 'what': 'code.logical_errors on a stack vs the model'}, tag='stacked-model')
 
 
 def structured_errors(code, rng, n_rand):
@@ -257,6 +263,13 @@ def oracle(ctx, deep=False, broken=None):
         if deform[0] is not None:   # the same on an object that was used and deformed before
             cases.append({'class': cls, 'size': list(size), 'deform': [deform[0], deform[1]], 'reuse': True,
                           'errors': structured_errors(code, rng, 4)})
+    if deep:
+        # codes with more than 255 / 512 qubits (dtype wrap-around and blocking in dense products live there)
+        for cls, size in (('Toric2DCode', (12, 12)), ('Toric3DCode', (5, 5, 5)), ('Planar2DCode', (12, 11)),
+                          ('RotatedPlanar2DCode', (17, 16)), ('Toric2DCode', (16, 17))):
+            code = K.build(cls, size, (None, {}))
+            cases.append({'class': cls, 'size': list(size), 'deform': [None, {}],
+                          'errors': structured_errors(code, rng, 6)})
     fails = []
     n_eval = 0
     seen = set()
